@@ -25,11 +25,15 @@ def showD (d : Delivered) : String :=
 
 def step (_ : Unit) (ws : List String) : Unit × String :=
   match ws with
-  | "run" :: start :: chunk :: finTag :: tip0 :: chain :: inputs :: _ =>
+  | "run" :: start :: chunk :: finTag :: tip0 :: chain :: inputs :: rest =>
     match start.toNat?, chunk.toNat?, parseBool finTag, tip0.toNat?, parseChain chain, parseInputs inputs with
     | some start, some chunk, some ft, some tip0, some ch, some inps =>
       let env : Env := { chain := fun b => match ch.find? (fun x => x.1 == b) with | some x => x.2 | none => [], chunk := chunk, finalizedTag := ft }
-      let s := run env (init env start tip0) inps
+      -- optional 11th field `G:i,j,…`: the range fetch of these iterations gives up (six header mismatches in a row)
+      let gs : List Nat := match rest.drop 3 with
+        | g :: _ => if g.startsWith "G:" then ((g.drop 2).toString.splitOn ",").filterMap (·.toNat?) else []
+        | [] => []
+      let s := runG env (init env start tip0) (inps.zipIdx.map (fun (i, k) => (i, gs.contains k)))
       ((), ("out " ++ " ".intercalate (s.out.map showD)).trimAsciiEnd.toString)
     | _, _, _, _, _, _ => ((), "bad-op")
   | _ => ((), "bad-op")
